@@ -9,9 +9,9 @@
    index among parallel edges.
 
    The operations are tree surgery on the forest.  The predicted ID deltas ([spec_deltas]) are a
-   separate computation by path rewriting that never builds the edited forest (as the Go functions
-   DeleteIDDeltas / RenameIDDeltas / MoveIDDeltas do with temporary re-parenting).  The theorems in
-   Proofs.v relate the two for all graphs. *)
+   separate computation that never builds the edited forest: as the Go functions DeleteIDDeltas /
+   RenameIDDeltas / MoveIDDeltas do, it walks the affected subtree, re-parents it temporarily and reads
+   the IDs off again.  Main.v / C40.Proofs relate the two for all graphs. *)
 From Coq Require Import List NArith Bool Decimal DecimalN.
 Import ListNotations.
 Require Import V.Lib.RunCases.
